@@ -462,35 +462,51 @@ def runPlans {σ F : Type} (b : Backend σ F) (pfx : Extra) : List (Plan F) → 
 
 def keyLt (a b : Nat × σ) : Bool := decide (a.1 < b.1)
 
+/-- `if has_msgstr: d = …; d.dst_fmt = self.check_string(ctx, message, message.msgstr); strings += [d]` -/
+def msgstrPlan {σ F : Type} (b : Backend σ F) (ctx : Ctx) (msg : Msg σ) (f0 : Option F) :
+    Except Py.Exc (List TagCall × List (Plan F)) :=
+  if b.truthy msg.msgstr then
+    match checkString b ctx msg msg.msgstr with
+    | .error e => .error e
+    | .ok (tg, dst) => .ok (tg, [{ srcLoc := "msgid".toList, src := f0, dstLoc := "msgstr".toList, dst := dst, omittedOk := false }])
+  else .ok ([], [])
+
+/-- `if has_msgstr_plural and ctx.plural_preimage: for i, s in sorted(message.msgstr_plural.items()): …` -/
+def msgstrPluralPlans {σ F : Type} (b : Backend σ F) (ctx : Ctx) (msg : Msg σ) (fl : Flags) (f0 f1 : Option F) :
+    Except Py.Exc (List TagCall × List (Plan F)) :=
+  match ctx.preimage with
+  | some (q :: pre) =>
+    if msg.msgstrPlural.any (fun p => b.truthy p.2) then pluralPlans b ctx msg fl f0 f1 (q :: pre) (sortBy keyLt msg.msgstrPlural)
+    else .ok ([], [])
+  | _ => .ok ([], [])                                        -- `ctx.plural_preimage` is None or empty
+
 /-- the part of `check_message` after `check_msgids`: translations -/
 def checkTranslations {σ F : Type} (b : Backend σ F) (ctx : Ctx) (msg : Msg σ) (fl : Flags) (f0 f1 : Option F) :
     Except Py.Exc (List TagCall) :=
   if fl.fuzzy then .ok []
   else if !ctx.hasEncoding then .ok []
   else
-    let hasMsgstr := b.truthy msg.msgstr
-    let hasMsgstrPlural := msg.msgstrPlural.any (fun p => b.truthy p.2)
-    let first : Except Py.Exc (List TagCall × List (Plan F)) :=
-      if hasMsgstr then
-        match checkString b ctx msg msg.msgstr with
-        | .error e => .error e
-        | .ok (tg, dst) => .ok (tg, [{ srcLoc := "msgid".toList, src := f0, dstLoc := "msgstr".toList, dst := dst, omittedOk := false }])
-      else .ok ([], [])
-    match first with
+    match msgstrPlan b ctx msg f0 with
     | .error e => .error e
     | .ok (tg1, plans1) =>
-      let second : Except Py.Exc (List TagCall × List (Plan F)) :=
-        match ctx.preimage with
-        | some (q :: pre) =>
-          if hasMsgstrPlural then pluralPlans b ctx msg fl f0 f1 (q :: pre) (sortBy keyLt msg.msgstrPlural)
-          else .ok ([], [])
-        | _ => .ok ([], [])                                        -- `ctx.plural_preimage` is None or empty
-      match second with
+      match msgstrPluralPlans b ctx msg fl f0 f1 with
       | .error e => .error e
       | .ok (tg2, plans2) =>
         match runPlans b msg.pfx (plans1 ++ plans2) with
         | .error e => .error e
         | .ok t => .ok (tg1 ++ tg2 ++ t)
+
+/-- `msgid_fmts.get(1)`: the second round of `for i, s in enumerate(msgids)`, if there is a `msgid_plural` -/
+def pluralMsgidFmt {σ F : Type} (b : Backend σ F) (ctx : Ctx) (msg : Msg σ) : Except Py.Exc (Option (List TagCall × Option F)) :=
+  match msg.msgidPlural with
+  | none => .ok (some ([], none))
+  | some s => msgidFmt b ctx msg s
+
+/-- `if ctx.is_template and (len(msgid_fmts) == 2): self.check_args(message, 'msgid_plural', msgid_fmts[1], 'msgid', msgid_fmts[0], omitted_int_conv_ok=True)` -/
+def templateArgs {σ F : Type} (b : Backend σ F) (ctx : Ctx) (msg : Msg σ) (f0 f1 : Option F) : Except Py.Exc (List TagCall) :=
+  match ctx.isTemplate, f0, f1 with
+  | true, some a, some c => b.checkArgs msg.pfx "msgid_plural".toList c "msgid".toList a true
+  | _, _, _ => .ok []
 
 /-- `Checker.check_message(ctx, message, flags)` -/
 def checkMessage {σ F : Type} (b : Backend σ F) (ctx : Ctx) (msg : Msg σ) (fl : Flags) : Except Py.Exc (List TagCall) :=
@@ -498,20 +514,11 @@ def checkMessage {σ F : Type} (b : Backend σ F) (ctx : Ctx) (msg : Msg σ) (fl
   | .error e => .error e
   | .ok none => .ok []
   | .ok (some (tg0, f0)) =>
-    let second : Except Py.Exc (Option (List TagCall × Option F)) :=
-      match msg.msgidPlural with
-      | none => .ok (some ([], none))
-      | some s => msgidFmt b ctx msg s
-    match second with
+    match pluralMsgidFmt b ctx msg with
     | .error e => .error e
     | .ok none => .ok []
     | .ok (some (tg1, f1)) =>
-      -- if ctx.is_template and (len(msgid_fmts) == 2): check_args(message, 'msgid_plural', fmts[1], 'msgid', fmts[0], omitted_int_conv_ok=True)
-      let tmpl : Except Py.Exc (List TagCall) :=
-        match ctx.isTemplate, f0, f1 with
-        | true, some a, some c => b.checkArgs msg.pfx "msgid_plural".toList c "msgid".toList a true
-        | _, _, _ => .ok []
-      match tmpl with
+      match templateArgs b ctx msg f0 f1 with
       | .error e => .error e
       | .ok tg2 =>
         let tg3 := b.checkMsgids msg.repr f0
